@@ -698,6 +698,9 @@ func (d *DateTimeSpan) Divide(other Value) (Value, Value) {
 		case *BigInt:
 			return Ref(d.DivideBigInt(o)), Undefined
 		case *BigFloat:
+			if o.IsZero() {
+				return Undefined, Ref(NewZeroDivisionError())
+			}
 			return Ref(d.DivideBigFloat(o)), Undefined
 		default:
 			return Undefined, Ref(NewCoerceError(d.Class(), other.Class()))
